@@ -204,7 +204,21 @@ func VxC06IsReverting() {
 	vx.Assume(src.staleTip < len(src.remote))
 	localH := uint64(len(vxLocal) - 1)
 	next := vx.U64("nextHeight")
+	// the highest header the node has seen from the source so far: none, or an arbitrary one (after the
+	// node followed a reorg onto a fork that is not longer, it is a header of the ABANDONED fork)
+	if vx.Choice("remembers-a-header-of-the-source", 2) == 1 {
+		hb := vx.FeltBytes("remembered.hash")
+		rh := new(felt.Felt).SetBytes(hb[:])
+		s.highestBlockHeader.Store(&core.Header{Number: vx.U64("remembered.number"), Hash: rh, ParentHash: &vxZero, GlobalStateRoot: &vxZero})
+		vx.Cover("node-remembers-a-header-of-the-source")
+	}
+	callsBefore := src.calls
 	last, isReorg := s.isReverting(context.Background(), next)
+	if src.failAt >= callsBefore && src.failAt < src.calls {
+		// the source could not be asked: without its word nothing may be declared dropped
+		vx.Cover("source-unavailable-during-the-check")
+		vx.Assert(!isReorg, "no-reorg-declared-when-the-source-could-not-be-asked")
+	}
 	if !isReorg {
 		vx.Cover("no-reorg")
 		return
